@@ -64,6 +64,13 @@ SubOK(c, s) ==
 \* would be dropped without anybody noticing
 AllSurvivorsMapped(c, m) == m.imported \/ m.fo < 0 \/ Cardinality({q \in DOMAIN m.map : m.map[q] # 0}) >= m.survivors
 
+\* ... and, also independently of what the transform claims: an instruction and its image are the same operator, and the
+\* correspondence keeps the instructions of a function in order (two instructions never share an image)
+SameOperators(m) ==
+  m.imported \/ m.fo < 0 \/
+  /\ \A q \in DOMAIN m.map : m.map[q] # 0 => (m.map[q] \in DOMAIN m.outo /\ m.ino[q] = m.outo[m.map[q]])
+  /\ \A q1, q2 \in DOMAIN m.map : (q1 < q2 /\ m.map[q1] # 0 /\ m.map[q2] # 0) => m.map[q1] < m.map[q2]
+
 Verdict(c) ==
   IF c.outcome # "ok" THEN <<"outcome", c.version, c.spanning, c.variant, c.outcome>>
   ELSE IF ~c.out_valid THEN <<"ok">>     \* an invalid output is C02's / C06's violation, not a statement about debug addresses
@@ -71,6 +78,10 @@ Verdict(c) ==
   ELSE IF \E m \in Ran(c.fmap) : ~AllSurvivorsMapped(c, m) THEN
        LET m == CHOOSE x \in Ran(c.fmap) : ~AllSurvivorsMapped(c, x) IN
        <<"surviving-instruction-without-image", c.variant, m.fi, m.survivors, Cardinality({q \in DOMAIN m.map : m.map[q] # 0})>>
+  ELSE IF \E m \in Ran(c.fmap) : ~SameOperators(m) THEN
+       LET m == CHOOSE x \in Ran(c.fmap) : ~SameOperators(x) IN
+       <<"address-correspondence-joins-different-instructions", c.variant, m.fi,
+         {<<q, m.ino[q], m.map[q]>> : q \in {x \in DOMAIN m.map : m.map[x] # 0 /\ (m.map[x] \notin DOMAIN m.outo \/ m.ino[x] # m.outo[m.map[x]])}}>>
   ELSE IF \E s \in Ran(c.in_subs) : ~SubOK(c, s) THEN
        LET s == CHOOSE x \in Ran(c.in_subs) : ~SubOK(c, x) IN
        <<"subprogram-range", c.variant, s, {o \in Ran(c.out_subs) : o.fi = s.fi}, FMap(c, s.fi).fo>>
